@@ -40,7 +40,8 @@ pub fn run_c03(cx: &Ctx) -> i32 {
             };
             let (base_vm, base_delegates) = engine::engine_class(&base);
             // variants: every single site (before/after) and all sites at once
-            let mut variants: Vec<(String, fancy_regex::Regex, bool)> = Vec::new();
+            let base_owns = engine::vm_owns_loops(&base);
+            let mut variants: Vec<(String, fancy_regex::Regex, bool, bool)> = Vec::new();
             let size = node.size();
             let mut vnodes = Vec::new();
             for site in 0..size {
@@ -67,7 +68,8 @@ pub fn run_c03(cx: &Ctx) -> i32 {
                         } else {
                             t.count("variants_same_shape_counts", 1);
                         }
-                        variants.push((vp, r, all));
+                        let owns = engine::vm_owns_loops(&r);
+                        variants.push((vp, r, all, owns));
                     }
                     Err(_) => t.count("variants_not_compiling(skipped)", 1),
                 }
@@ -80,7 +82,7 @@ pub fn run_c03(cx: &Ctx) -> i32 {
                     if matches!(b, Out::Panic(_)) {
                         continue;
                     }
-                    for (vp, vre, all) in &variants {
+                    for (vp, vre, all, v_owns) in &variants {
                         if !*all && tl > single_site_len {
                             continue;
                         }
@@ -101,7 +103,9 @@ pub fn run_c03(cx: &Ctx) -> i32 {
                             t.count("skipped_runtime_error_on_one_side", 1);
                             continue;
                         }
-                        if facts.f1 {
+                        // class F1 explains a divergence only if at least one side leaves an unbounded
+                        // repeat to the automata engine; two VM-interpreted sides follow the same rule
+                        if facts.f1 && !(base_owns && *v_owns) {
                             t.known(kf::KF_F1, || jobj! {"base" => pattern.as_str(), "variant" => vp.as_str(), "text" => text.as_str(), "pos" => pos, "base_result" => b.short(), "variant_result" => v.short()});
                             continue;
                         }
